@@ -654,8 +654,9 @@ def judge(case, impl, model):
         got_defs = {n: norm_schema(d) for n, d in impl["backDefs"].items()}
     if phase_m == "ok" and "back" in model and not unfaithful and "collapse-after-required-mutation" not in issues:
         mback = norm_schema(unwire_schema(model["back"]))
-        mdefs = {n: norm_schema(unwire_schema(d)) for n, d in model.get("defBacks", [])
-                 if n in reachable_defs(schema, defs)}
+        # definitions the real mapping visits = those reachable from what the class still refers to
+        reach_m = reachable_defs(unwire_schema(model["back"]), defs)
+        mdefs = {n: norm_schema(unwire_schema(d)) for n, d in model.get("defBacks", []) if n in reach_m}
         if "unsupported" in json.dumps(mback) or "unsupported" in json.dumps(mdefs):
             if "back_err" not in impl:
                 msgs.append("model: structure_to_schema raises, real returns " + json.dumps(got)[:300])
